@@ -66,8 +66,14 @@ type Term struct {
 	hasRange bool
 }
 
+type constKey struct {
+	w int
+	v uint64
+}
+
 type TermTable struct {
 	tab    map[termKey]*Term
+	consts map[constKey]*Term
 	nextID int
 	vars   []*Term
 }
@@ -76,6 +82,7 @@ func NewTermTable() *TermTable { return &TermTable{tab: map[termKey]*Term{}} }
 
 func (tt *TermTable) Reset() {
 	tt.tab = map[termKey]*Term{}
+	tt.consts = nil
 	tt.nextID = 0
 	tt.vars = nil
 }
@@ -150,7 +157,16 @@ func (tt *TermTable) Const(w int, v uint64) *Term {
 	} else if w == 0 {
 		v &= 1
 	}
-	return tt.intern(&Term{op: OConst, w: w, val: v})
+	ck := constKey{w, v}
+	if t, ok := tt.consts[ck]; ok {
+		return t
+	}
+	t := tt.intern(&Term{op: OConst, w: w, val: v})
+	if tt.consts == nil {
+		tt.consts = map[constKey]*Term{}
+	}
+	tt.consts[ck] = t
+	return t
 }
 func (tt *TermTable) Bool(b bool) *Term {
 	if b {
